@@ -158,6 +158,18 @@ Theorem C02_gamma_sql_is_gamma :
 Proof. exact gen_gamma_sound. Qed.
 Print Assumptions C02_gamma_sql_is_gamma.
 
+(* the comparison used for the skeleton obligations (literals compared with ==) only accepts
+   skeletons that evaluate alike, for every POW that respects == *)
+Theorem C02_skeleton_equality_sound :
+  forall pow, (forall a a' b b', a == a' -> b == b' -> pow a b == pow a' b') ->
+  forall a b, nx_eqb a b = true ->
+  forall env conds, oxq_eq (neval pow env conds a) (neval pow env conds b).
+Proof.
+  intros pow Hp a b H env conds. apply (proj1 (eqb_sound pow Hp)); auto.
+  intros c. destruct (env c) as [x|]; cbn; auto. apply xq_eq_refl.
+Qed.
+Print Assumptions C02_skeleton_equality_sound.
+
 (* ---- over R --------------------------------------------------------------------------- *)
 Local Open Scope R_scope.
 
